@@ -495,6 +495,20 @@ theorem c01_counterexample :
           ∃ ρ' : String → K, (∀ x, inScope d x → ρ' x = ρ x) ∧ linFeasible lm ρ' = true) :=
   boxEnforced_needed (k := (1 / 2 : K)) (by norm_num) (by norm_num)
 
+/-- **Counterexample for the definedness hypothesis** (`FragModel.cons … .defined`): `c: 0 * (x / 0) ≤ 1` is
+undefined at every assignment (the source is infeasible), but `simplify` folds it to the tautology `0 ≤ 1`,
+which is dropped: the linear model accepts every assignment.  All structural hypotheses hold. -/
+theorem c01_defined_counterexample :
+    ∃ (m : Model (Ext K)) (b : BoundsMap (Ext K)) (d : List (DomVar (Ext K))) (lm : LinModel (Ext K)),
+      linearizeWith m b d = .ok lm ∧ DomRel m d ∧ BoxEnforced b d ∧
+      (∀ c ∈ m.constraints, c.isAssert = false ∧ FG true (inScope d) c.lhs ∧ FG true (inScope d) c.rhs) ∧
+      (∀ ρ : String → K, ¬ srcFeasible m ρ = true) ∧ (∀ ρ : String → K, linFeasible lm ρ = true) :=
+  defined_needed
+
+/-- a decidable sufficient condition for the definedness hypothesis: finite literals, non-zero literal divisors,
+non-empty `min`/`max`. -/
+theorem definedE_check (e : Exp (Ext K)) (h : wellDef e = true) : DefinedE e := definedE_of_wellDef e h
+
 /-- `BoxEnforced` from a per-entry check. -/
 theorem boxEnforced_check {b : BoundsMap (Ext K)} {d : List (DomVar (Ext K))}
     (h : ∀ n bd, lookupB b n = some bd → ∃ dv ∈ d, dv.name = n ∧ dv.usage > 0 ∧
